@@ -247,6 +247,26 @@ contract(
 )
 
 
+# ---- the listing: every live job exactly once, in most-recently-used order, finished ones gone ---------------------------------------
+EXT_LIST = dict(EXT2)
+EXT_LIST["print_one_job"] = Ext(event="listed", log=0, log_type=Int, note="prints one line for the job number given (reads the table only)")
+contract(
+    F + "jobs", "C20", emits=["listed"], params=dict(args=Seq(Str), stdin=Opaque("stream"), stdout=Opaque("stream"), stderr=Opaque("stream")), globals=G2, config=CFG,
+    externals=EXT_LIST, defs=DEFS, returns=Tuple(NoneT, NoneT),
+    requires={"table": TABLE, "jobs-well-formed": JOBSWF},
+    modifies=["TASKS", "JOBS"], snapshots={"purged": "_clear_dead_jobs"},
+    locals={"format": Str},
+    loops={"for#1": dict(invariant={"one-line-per-job-so-far-in-order": "log('listed') == TASKS[:_i]", "table-untouched": 'TASKS == at("purged", TASKS)'}, havoc_only=[])},
+    ensures={
+        "lists-exactly-the-most-recently-used-order": "log('listed') == TASKS",
+        "every-live-job-once-and-no-finished-one": "forall(lambda x: cnt(TASKS, x) == (1 if x in JOBS else 0)) and forall(lambda x: implies(x in JOBS, not dead(x)))",
+        "table": TABLE, "jobs-well-formed": JOBSWF,
+    },
+    notes="decorated with @use_main_jobs() (see its contract): the body runs on the main table",
+    from_property="Every background or suspended pipeline appears exactly once in `jobs` under a unique number ... and finished jobs disappear",
+)
+
+
 def _umj_yield(R, frame, val, ynode):
     """with-contract: the body of the `with` may do anything to the tables' contents but does not
     rebind the thread-local attributes; it may also raise (the generator is then resumed by throw)"""
@@ -468,7 +488,7 @@ for _c in BY_PROP["C20"]:
     elif q == "disown_fn":
         _c.replay = _jobs_harness("disown_fn", ("job_ids", "force_auto_continue"))
         _c.native_domain = _jobs_domain([{"job_ids": j, "force_auto_continue": f, "auto_continue": False} for j in ([], [1], [2], [3], [5]) for f in (False, True)])
-    elif q in ("get_tasks", "get_jobs", "use_main_jobs"):
+    elif q in ("get_tasks", "get_jobs", "use_main_jobs", "jobs"):
         _c.native_env = None
         _c.native_prepare = None
         _c.replay_extras = None
